@@ -29,6 +29,8 @@ THEOREMS = [
     "bolt_sort_no_panic",
     # 1g objectz
     "objectz_scan_order_is_repaired", "objectz_scan_no_panic", "objectz_scan_follows_code",
+    # 1h histories of ast.Parse calls
+    "parse_listener_is_per_call", "parse_history_independent", "parse_history_follows_code",
 ]
 TABLE_OBLIGATIONS = [
     "class_table_is_expected (Generated/C10Classes.lean: interfaces implemented by every ast node class, from ast/*.go)",
@@ -37,6 +39,7 @@ TABLE_OBLIGATIONS = [
     "pool_wiring_is_expected (Generated/C10Sites.lean: zitiql.parse removes the pooled parser's error listeners before use on every path and, deferred, after use)",
     "callbacks_are_expected (Generated/C10Sites.lean: the ToBoltListener callbacks that exist are the modelled ones)",
     "objectz_scan_follows_code (Generated/C10Sites.lean objScanNilTestFirst: the order of `cursor == nil` and the first use of the iterator in objectz memSortingScanner.Scan selects the model variant; objectz_scan_order_is_repaired: the order is the repaired one of bbcb51c, for which the full no-panic statement is proved; the other order is refuted)",
+    "parse_listener_is_per_call (Generated/C10Sites.lean astParseListenerPerCall: in ast.Parse the listener handed to zitiql.Parse is a local variable defined once by `:= NewListener()`, and NewListener returns a literal with fresh `&Stack{}` operand stacks and no error; selects the listener policy of C10/Session.lean parseHistory, for which parse_history_independent is the full statement)",
     "lexer_table_is_good (Generated/C10Lexer.lean: zitiql/ZitiQl.g4 re-read on every run; its lexer rules compile - references resolve, no recursion, every token known - into the rule table the reference lexer INTERPRETS, and the table satisfies GoodTable: one rule per token type in ANTLR's numbering, no rule matches the empty string, outside STRING only recognised characters)",
     "lexer_atn_matches_grammar (Generated/C10Atn.lean: the serializedATN literal of zitiql_lexer.go decoded; rule names incl. fragments in file order, token numbering, literal/symbolic names and - rule by rule - the multiset of transition labels equal what the Lean side computes from the grammar file's lexer rules)",
     "parser_atn_matches_grammar (Generated/C10Atn.lean: the same for zitiql_parser.go: rule names, boolExpr the only precedence rule with predicates 6/5 and the not-operand at precedence 1, per rule the token / rule-call labels of the grammar file's parser rules)",
@@ -102,6 +105,9 @@ def text_of(case):
             return _unhex(f[1]).decode("utf-8", "replace")
         if f[0] in ("Q", "B", "O"):
             return _unhex(f[-1]).decode("utf-8", "replace")
+        if f[0] == "H":
+            return " ; then: ".join(("[table %s] " % w.split("~")[0] if "~" in w else "") + "`" +
+                                    _unhex(w.split("~")[-1]).decode("utf-8", "replace") + "`" for w in f[2:])
     except ValueError:
         pass
     return case
@@ -162,12 +168,55 @@ def compare(case, impl, model, spec, estage):
     if kind == "O":
         if not impl.startswith("obj="):
             prop.append("object store: " + impl)
+    if kind == "H":
+        ri, rm, rs = (x[2:].split("|") if x.startswith("h=") else [x] for x in (impl, model, spec))
+        if "panic" in impl:
+            prop.append("panic in a history of ast.Parse calls: " + impl)
+        elif ri != rs:
+            k = next((j for j, (x, y) in enumerate(zip(ri, rs)) if x != y), min(len(ri), len(rs)))
+            prop.append(f"call {k + 1} of the history: ast.Parse returned {ri[k] if k < len(ri) else '?'} but the same text parsed alone "
+                        f"yields {rs[k] if k < len(rs) else '?'} (the answer depends on what was parsed before)")
+        if ri != rm:
+            corr.append(f"history: impl {impl} model {model}")
     if kind == "T":
         if impl != spec:
             prop.append(f"tree cursor: impl {impl} spec {spec}")
         if impl != model:
             corr.append(f"tree cursor: impl {impl} model {model}")
     return prop, corr
+
+
+def _run_alone(case):
+    """implementation and spec output of one case line, each in a fresh process"""
+    env = dict(os.environ, GOMEMLIMIT="8GiB")
+    a = par_run([common.HARNESS, "c10", "exec"], [case], env=env)[0]
+    m = par_run([common.DRIVER], [case])[0]
+    s = par_run([common.DRIVER, "spec"], [case])[0]
+    return a, m, s
+
+
+def confirm_history(b):
+    """a history case failed inside a long-running harness process, whose earlier cases are part of the real
+    history: re-run it alone (fresh process), and drop calls from it as long as it keeps failing, so that the
+    replay file holds a self-contained minimal history.  Returns the (possibly shrunk) failure or None."""
+    c = b[0]
+    a, m, s = _run_alone(c)
+    p, _ = compare(c, a, m, s, None)
+    if not p:
+        return None
+    f = c.split(" ")
+    head, texts = f[:2], f[2:]
+    i = 0
+    while i < len(texts) and len(texts) > 1:
+        cand = texts[:i] + texts[i + 1:]
+        c2 = " ".join(head + cand)
+        a2, m2, s2 = _run_alone(c2)
+        p2, _ = compare(c2, a2, m2, s2, None)
+        if p2:
+            texts, c, a, m, s, p = cand, c2, a2, m2, s2, p2
+        else:
+            i += 1
+    return (c, a, m, s, p)
 
 
 MATCHERS = {}  # no open finding (objectz nil iterator: fixed in bbcb51c)
@@ -179,7 +228,9 @@ RULE = ("streams: grammar-derived sentences with type-undirected operands; 1-2 t
         "empty child stores; the same kind of sentences through real bolt stores (empty store, entities without fields, "
         "populated, mixed, a 14-row dataset with null / equal / NaN sort keys, mistyped values) and through objectz stores (empty, nil "
         "fields, full, mixed, nil iterator), plus sort clauses over every symbol kind, 1-8 fields, duplicates, and every skip x limit out "
-        "of 16 extreme values, judged for panics; every ASCII and 24 non-ASCII code points in 28 lexical contexts; tree-set cursor scripts. distinct = distinct case lines; non-trivial = the input is not "
+        "of 16 extreme values, judged for panics; histories of 1-6 ast.Parse calls in one process (every ordered pair out of 78 fixed texts - non-sentences, "
+        "listener errors, typing errors, sentences, predicate-less sentences, the empty filter - and random sequences of generated sentences, "
+        "their mutations and predicate-less tails), every call compared with the same text parsed alone; every ASCII and 24 non-ASCII code points in 28 lexical contexts; tree-set cursor scripts. distinct = distinct case lines; non-trivial = the input is not "
         "trivially rejected at its first token (at least two tokens lexed) or is accepted")
 
 
@@ -194,6 +245,8 @@ def nontrivial(case, impl):
         return case if impl.startswith("bolt=ok") or impl.startswith("panic") else None
     if k == "O":
         return case if impl.startswith("obj=ok") or impl.startswith("panic") else None
+    if k == "H":
+        return case if "ok:" in impl or impl.startswith("panic") else None
     return case
 
 
@@ -210,6 +263,8 @@ def histogram(lines, impl):
             key = "B:" + ("panic" if a.startswith("panic") else ("evaluated" if a.startswith("bolt=ok") else "rejected"))
         elif k == "O":
             key = "O:" + ("panic" if a.startswith("panic") else ("evaluated" if a.startswith("obj=ok") else "rejected"))
+        elif k == "H":
+            key = "H:%d-calls" % (len(c.split(" ")) - 2)
         else:
             key = k
         h[key] = h.get(key, 0) + 1
@@ -298,6 +353,31 @@ def run(ctx, replay_cases=None):
     for b in prop_bad:
         if common.classify(ctx, MATCHERS, b[0], {"impl": b[1], "model": b[2], "spec": b[3], "why": b[4]}) is None:
             unknown.append(b)
+    # history cases: the harness process is itself one long history, so a failing case may owe its failure to
+    # cases run before it.  Candidates (the shortest of every history length) are re-run alone and shrunk; when
+    # some reproduce, only self-contained failures are reported: the confirmed histories, and other failing
+    # cases only if the smallest of them also fails alone.
+    hist = [b for b in unknown if b[0].startswith("H ")]
+    if hist:
+        by_len = {}
+        for b in sorted(hist, key=lambda u: len(u[0])):
+            by_len.setdefault(len(b[0].split(" ")), []).append(b)
+        cands = [b for k in sorted(by_len) for b in by_len[k][:4]][:24]
+        confirmed = []
+        for b in cands:
+            x = confirm_history(b)
+            if x is not None:
+                confirmed.append(x)
+                if len(confirmed) >= 3:
+                    break
+        if confirmed:
+            others = [b for b in unknown if not b[0].startswith("H ")]
+            if others:
+                c0 = min(others, key=lambda u: (len(text_of(u[0])), len(u[0]), u[0]))[0]
+                a0, m0, s0 = _run_alone(c0)
+                if not compare(c0, a0, m0, s0, None)[0]:
+                    others = []
+            unknown = others + confirmed
     if unknown:
         c, a, m, s, why = min(unknown, key=lambda u: (len(text_of(u[0])), sum(1 for ch in text_of(u[0]) if not ch.isprintable()), len(u[0]), u[0]))
         common.violation(ctx, "property-fails-on-input", c,
